@@ -404,25 +404,27 @@ structure CF where
   pairs : List (Nat × Nat)
   drops : List Val
 
-def cloneFromArchs (e : Nat) : CF → List Arch → CF
-  | st, [] => st
-  | st, sa :: rest =>
-    let hit : Option Arch :=
-      match lookupH st.d.foreign sa.mask with
-      | some h => st.d.findArch h
-      | none => none
-    match hit with
-    | some da =>
-      -- `archetype.clone_from(source_archetype)`: identifiers and columns overwritten in place
-      let da' : Arch := { da with ids := sa.ids, cols := sa.cols.map (fun c => c.map (cloneVal e)) }
-      cloneFromArchs e ⟨st.d.setArch da', st.pairs ++ [(sa.handle, da.handle)],
-                        st.drops ++ da.values⟩ rest
-    | none =>
-      let h' := st.d.next
-      let d' : World := { st.d with archs := st.d.archs ++ [Arch.cloneWith e h' sa],
-                                    foreign := st.d.foreign ++ [(sa.mask, h')],
-                                    next := h' + 1 }
-      cloneFromArchs e ⟨d', st.pairs ++ [(sa.handle, h')], st.drops⟩ rest
+/-- The destination table with the source table's identifier bytes, found the way
+`Archetypes::clone_from` finds it. -/
+def cfHit (d : World) (m : Mask) : Option Arch :=
+  match lookupH d.foreign m with
+  | some h => d.findArch h
+  | none => none
+
+/-- One iteration of the per-source-archetype loop of `Archetypes::clone_from`. -/
+def cloneFromStep (e : Nat) (st : CF) (sa : Arch) : CF :=
+  match cfHit st.d sa.mask with
+  | some da =>
+    -- `archetype.clone_from(source_archetype)`: identifiers and columns overwritten in place
+    ⟨st.d.setArch { da with ids := sa.ids, cols := sa.cols.map (fun c => c.map (cloneVal e)) },
+     st.pairs ++ [(sa.handle, da.handle)], st.drops ++ da.values⟩
+  | none =>
+    ⟨{ st.d with archs := st.d.archs ++ [Arch.cloneWith e st.d.next sa],
+                 foreign := st.d.foreign ++ [(sa.mask, st.d.next)],
+                 next := st.d.next + 1 },
+     st.pairs ++ [(sa.handle, st.d.next)], st.drops⟩
+
+def cloneFromArchs (e : Nat) (st : CF) (l : List Arch) : CF := l.foldl (cloneFromStep e) st
 
 /-- `type_id_lookup.insert(key, value)`: replace the value of an existing key, else add. -/
 def upsert (l : List (Mask × Nat)) (m : Mask) (h : Nat) : List (Mask × Nat) :=
